@@ -145,7 +145,8 @@ def discharge(obls, timeout=None, retry=True, use_cvc5=True, progress=None):
             o = obls[i]
             v, t, be, detail = res
             o.time += t
-            if v in ("unknown", "error") and retry and attempt[i] == 0 and (o.by or {}).get("backend") != "ratfun":
+            if v in ("unknown", "error") and retry and attempt[i] == 0 and (o.by or {}).get("backend") != "ratfun" \
+                    and not getattr(o, "alternatives", None):
                 attempt[i] = 1
                 o.detail = f"first attempt: {v} ({detail}); "
                 pending.append(i)
